@@ -122,6 +122,13 @@ CHECKS = {
         "Trusted: schema_ref model for conformance, Python hashlib, the harness JSON tree codec. Parameter types avoid the features with open C12 findings.",
         "DESIGN.md §3 C18",
     ),
+    "C19": (
+        "exploration",
+        "runtime monitoring: probe scripts inside recorded and synthetic transactions; five-way agreement on execution units, budget hand-over histories, missing-piece fault injection, permutation metamorphics, echoed script contexts against independently written ledger rules",
+        "Recorded transactions harvested from the repository's tx tests and synthetic Conway transactions from an independent CBOR encoder (all six purposes, three languages, witness / reference scripts, inline / hashed datums) run through eval_phase_two with probe scripts: reported units == EvalResult cost == direct evaluation of the applied script == script applied to its echoed context == first principles; N probes of cost c under budget k*c + (c-1) must fail at redeemer k+1, with and without cost models; removing a needed datum / script / resolved input / redeemer must fail, never panic; shuffling resolved inputs, witness scripts and datums must change nothing; the echoed context is compared with a context rebuilt from the transaction model.",
+        "Trusted: txsim/cbor.py, txgen.py, context_rules.py. Ledger rules were recalled from the specification (no network): an ordering observation that can neither be confirmed offline nor is pinned by the property text (treasury withdrawals) is reported as inconclusive, not as a verdict.",
+        "DESIGN.md §3 C19",
+    ),
     "C20": (
         "exploration",
         "runtime monitoring: crash/abort/blow-up monitor over subprocess shards with realistic stacks, hostile near-valid inputs, CPU-time growth series",
